@@ -36,6 +36,7 @@ def main():
     ap.add_argument("--tier", default="quick")
     ap.add_argument("--no-demo", action="store_true")
     ap.add_argument("--proof-only", action="store_true", help="skip the bounded stand-ins (PYVC_NO_BOUNDED=1)")
+    ap.add_argument("--fast", action="store_true", help="PYVC_FAST_UNKNOWN=1: an unknown of the first solver attempt is reported without the retry ladder")
     args = ap.parse_args()
     rc, out = sh("git status --short -- behave", cwd=REPO)
     if out.strip():
@@ -76,6 +77,8 @@ def main():
             env["VERIF_TIER"] = args.tier
             if args.proof_only:
                 env["PYVC_NO_BOUNDED"] = "1"
+            if args.fast:
+                env["PYVC_FAST_UNKNOWN"] = "1"
             t0 = time.time()
             rc, out = sh("./check %s --tier %s" % (prop, args.tier), cwd=VERIF, env=env)
             rec["check_exit"] = rc
@@ -86,6 +89,7 @@ def main():
             rec["undecided"] = sorted(set(re.findall(r"^UNDECIDED: (.*)$", out, re.M)))[:6]
             rec["tail"] = out.strip().splitlines()[-1][:200] if out.strip() else ""
             rec["proof_only"] = bool(args.proof_only)
+            rec["fast_unknown"] = bool(args.fast)
         finally:
             clean_repo()
         rec["detected"] = rec.get("check_exit") == 1 and bool(rec.get("violations"))
